@@ -93,6 +93,17 @@ def stacks_case(item):
         outcomes.add((bool(got), tuple(got_log)))
         if bool(got) != bool(exp) or got_log != exp_log:
             viols.append({"rule": "stack_control_flow", "expected": {"stack": desc, "result": exp, "calls": exp_log}, "observed": {"result": bool(got), "calls": got_log}, "where": desc})
+        if desc[0] == "stack":
+            # the same members handed to a Strategy: its own stack runs them exactly like that
+            counter = [0]
+            subs = [make(d, counter) for d in desc[1]]
+            strat = rt.bt().Strategy("s", [x[0] for x in subs])
+            del LOG[:]
+            got2 = strat.stack(strat)
+            got_log2 = list(LOG)
+            n += 1
+            if bool(got2) != bool(exp) or got_log2 != exp_log:
+                viols.append({"rule": "strategy_stack_control_flow", "expected": {"stack": desc, "result": exp, "calls": exp_log}, "observed": {"result": bool(got2), "calls": got_log2}, "where": desc})
     return (n, len(outcomes), viols[:30], len(viols))
 
 
@@ -207,7 +218,7 @@ def oob_case(item):
     else:
         exp = False
         for k, w in weights.items():
-            if k in targets and abs((w - targets[k]) / targets[k]) > tol:
+            if k in targets and not (abs((w - targets[k]) / targets[k]) <= tol):
                 exp = True
     algo = bt.algos.RunIfOutOfBounds(tol)
     viols = []
